@@ -20,6 +20,14 @@ CHECKS = {
    text='Bounded: every permutation x re-association of operand multisets (size 2,3 complete over a pool incl. segmented memory, conditionals sharing arms, slices, composes; seeded 4-subsets) must simplify to the identical expression; every corpus tree simplified twice (second time on a fresh copy) must be a fixpoint; rendered simplifications, lifted semantics and dump_id/dump_mem must be byte-identical across 5 hash seeds. Seed independence is a property of processes, not expressible as a per-call contract.',
    note='Bounded in operand pool, arity <= 4, shapes and seeds. key_expr order laws are decided completely on the pool (COMP).',
    ref='5 C13'),
+ 'C15': dict(cat='other', tech='run-time twins of the contracts of __eq__/__hash__/copy/visit/replace_expr/canonize over enumerated trees; value clauses (equal => same value, replace_expr = substitution, canonize preserves value) proved per tree for ALL valuations by z3',
+   text='Bounded in shape: ~9k trees (quick) incl. segmented memory and ExprAff; per tree reflexivity, hash, deep-copy equality and freshness by identity walk, visit(identity), frames, canonize value and replace_expr-as-substitution (up to 7 maps, incl. a map that hits only a segment selector) discharged by z3 for all valuations; per pool symmetry, !=, eq=>hash, eq=>same value, transitivity. The per-class inductive proofs sketched in DESIGN are not claimed.',
+   note='Trusted: z3, liftvc/den.py, the structural read-back undesc (independent of the repo __eq__). replace_expr maps restricted to identifier keys and to a memory key only when it is the only cell of the tree (aliasing).',
+   ref='5 C15'),
+ 'C16': dict(cat='other', tech='run-time twins of the contracts of get_r/get_w/get_expr_ids/MatchExpr; every identifier or memory cell missing from a read set must be proved non-interfering by z3 for all valuations; matching compared with an independent reference matcher on instances built by substitution and on single-point mutations',
+   text='Bounded in shape: read sets of ~9k trees (incl. nested memory reads, segmented cells, assignments with slice destinations) under mem_read=True/False; omissions are only accepted with a z3 proof of independence for all valuations. MatchExpr: 60+ patterns per width x bindings x mutations, soundness, completeness on instances, rejection of non-instances, repeated wildcards, and history independence between calls.',
+   note='Trusted: z3, liftvc/den.py (a segment selector other than es/cs/ss/ds influences the address), the reference matcher is_instance.',
+   ref='5 C16'),
 }
 NOT_YET = {}
 ALL = ['C%02d' % i for i in range(1, 20)]
@@ -47,7 +55,7 @@ def main():
         'hooks': {'guard': 'LRGH_MIASMX_VERIF', 'enable': 'unused: contracts are sidecar files under /verif/contracts, /repo is not instrumented',
                   'baseline_off_cmd': BASE_OFF, 'source_commits': [], 'add_only': True},
         'engines': [
-            {'name': 'liftvc', 'path': 'liftvc/', 'serves_properties': ['C05', 'C06'], 'kind_free_text': 'Engine B: IR denotation den() as z3 bit-vectors; equivalence / refinement queries over all machine states'},
+            {'name': 'liftvc', 'path': 'liftvc/', 'serves_properties': ['C05', 'C06', 'C15', 'C16'], 'kind_free_text': 'Engine B: IR denotation den() as z3 bit-vectors; equivalence / refinement queries over all machine states'},
             {'name': 'pyvc', 'path': 'pyvc/', 'serves_properties': ['C14', 'C05'], 'kind_free_text': 'Engine A: AST -> verification conditions (symbolic execution with callee contracts), z3'},
         ],
         'checks': checks,
